@@ -46,6 +46,12 @@ pub struct Case {
     /// a size limit is configured (1 = always exceeded, 2 = generous)
     #[serde(default)]
     pub limit: u8,
+    /// the thread-group leader has exited on its own (zombie leader, the other threads live on) and a
+    /// live thread is blamed: stopping the process times out, the leader cannot be attached, and the
+    /// kernel's auxiliary vector cannot be opened.  Only with the kernel's auxv and at least one
+    /// parked or sleeping thread.
+    #[serde(default)]
+    pub leader_exit: bool,
 }
 
 /// Flattens the soft-error JSON into a multiset of path tags.
@@ -155,6 +161,9 @@ pub fn check(c: &Case) -> Verdict {
         b.add_anon_at(ARENA + ARENA_SIZE, 1, 0, 0);
         synth = Some((phnum, phdr));
     }
+    let survivor = ids.iter().find(|(_, k)| *k == K_PARKED).or_else(|| ids.iter().find(|(_, k)| *k == K_SLEEPER)).map(|(id, _)| *id);
+    let leader_exit = c.leader_exit && c.auxv == AuxvPlan::Kernel && survivor.is_some();
+    b.spec.leader_exit = leader_exit;
     let t = match Target::spawn(&b.spec, scratch) {
         Ok(t) => t,
         Err(e) => return Verdict::Inconclusive(format!("target setup: {}", e.split(':').next().unwrap_or(""))),
@@ -163,6 +172,7 @@ pub fn check(c: &Case) -> Verdict {
         return Verdict::Inconclusive("target did not settle".into());
     }
     let pid = t.pid;
+    let blamed = if leader_exit { t.tid(survivor.unwrap()) } else { pid };
     let auxv = match c.auxv {
         AuxvPlan::NonUtf8LibraryName => {
             let a = true_auxv(pid);
@@ -182,7 +192,7 @@ pub fn check(c: &Case) -> Verdict {
             Some(a)
         }
     };
-    let opts = DumpOpts { blamed: pid, direct_auxv: auxv, size_limit: match c.limit % 3 { 1 => Some(1), 2 => Some(1 << 30), _ => None }, ..Default::default() };
+    let opts = DumpOpts { blamed, direct_auxv: auxv, size_limit: match c.limit % 3 { 1 => Some(1), 2 => Some(1 << 30), _ => None }, stop_timeout_ms: if leader_exit { Some(30) } else { None }, ..Default::default() };
     // ground truth about names before any dump
     let all_tids: Vec<(i32, u8)> = std::iter::once((pid, K_SLEEPER)).chain(ids.iter().map(|(id, k)| (t.tid(*id), *k))).collect();
     let comms: BTreeMap<i32, Vec<u8>> = all_tids.iter().filter_map(|(tid, _)| comm_of(pid, *tid).map(|c| (*tid, c))).collect();
@@ -228,6 +238,10 @@ pub fn check(c: &Case) -> Verdict {
                 seized.push(*tid);
             }
         }
+    }
+    if leader_exit && !seized.contains(&pid) {
+        // the zombie leader cannot be attached by anyone
+        seized.push(pid);
     }
     let mut w = make_writer(pid, &opts);
     let mut dest = Dest::new(vec![], 0);
@@ -281,6 +295,12 @@ pub fn check(c: &Case) -> Verdict {
         }
         _ => {}
     }
+    if leader_exit {
+        natural.insert("InitErrors/StopProcessFailed:Timeout".into(), 1);
+        natural.insert("InitErrors/FillMissingAuxvInfoFailed".into(), 1);
+        natural.insert(format!("SuspendThreadsErrors/PtraceAttachError:{pid}"), 1);
+        natural.insert("WriteDSODebugStreamFailed".into(), 1);
+    }
     if ref_got != natural {
         let sig = if ref_got.len() > natural.len() { "C11:spurious-soft-error" } else { "C11:failure-not-reported" };
         return Verdict::viol(sig, format!("no fail point enabled: reported {ref_got:?}, expected {natural:?}"));
@@ -288,10 +308,13 @@ pub fn check(c: &Case) -> Verdict {
     want.extend(natural.clone());
     if c.failmask & FS_STOP != 0 {
         want.insert("InitErrors/StopProcessFailed:Stop".into(), 1);
+        // the injected failure replaces the attempt
+        want.remove("InitErrors/StopProcessFailed:Timeout");
     }
     if c.failmask & FS_AUXV != 0 && c.auxv != AuxvPlan::TrueDirect {
-        // BadPhdr/HugePhnum supply all four values too => complete => not reached
-        if c.auxv == AuxvPlan::Kernel {
+        // BadPhdr/HugePhnum supply all four values too => complete => not reached;
+        // a file that cannot be opened at all fails before the fail point
+        if c.auxv == AuxvPlan::Kernel && !leader_exit {
             want.insert("InitErrors/FillMissingAuxvInfoErrors/InvalidFormat".into(), 1);
         }
     }
@@ -299,18 +322,22 @@ pub fn check(c: &Case) -> Verdict {
         want.insert("InitErrors/EnumerateThreadsErrors/ReadThreadNameFailed".into(), n_threads);
     }
     if c.failmask & FS_SUSPEND != 0 {
-        want.insert("SuspendThreadsErrors/PtraceAttachError:1234".into(), 1);
+        // (+= : a real thread of the target may happen to have the fail point's fake id 1234)
+        *want.entry("SuspendThreadsErrors/PtraceAttachError:1234".into()).or_default() += 1;
     }
     if c.failmask & FS_CPUINFO != 0 {
         want.insert("WriteSystemInfoErrors/WriteCpuInformationFailed".into(), 1);
     }
     for (tid, _) in &exiters {
         // vanished thread: attach failure must be reported (which errno is the kernel's business)
-        want.insert(format!("SuspendThreadsErrors/PtraceAttachError:{tid}"), 1);
+        *want.entry(format!("SuspendThreadsErrors/PtraceAttachError:{tid}")).or_default() += 1;
         optional.push(format!("SuspendThreadsErrors/WaitPidError:{tid}"));
     }
     for tid in &seized {
-        want.insert(format!("SuspendThreadsErrors/PtraceAttachError:{tid}"), 1);
+        if leader_exit && *tid == pid {
+            continue; // already part of the natural failures
+        }
+        *want.entry(format!("SuspendThreadsErrors/PtraceAttachError:{tid}")).or_default() += 1;
         // a null-SP helper that cannot even be attached is not "skipped"
         want.remove(&format!("SuspendThreadsErrors/DetachSkippedThread:{tid}"));
     }
@@ -403,8 +430,8 @@ pub fn check(c: &Case) -> Verdict {
             }
             // only parked threads are bit-stable between two dumps: drop the others' volatile parts
             let stable: Vec<u32> = all_tids.iter().filter(|(t, k)| *k == K_PARKED && !seized.contains(t)).map(|(t, _)| *t as u32).collect();
-            if seized.contains(&pid) {
-                // the blamed (main) thread is not part of this dump: its exception context is not comparable
+            if seized.contains(&blamed) || (blamed != pid && !stable.contains(&(blamed as u32))) {
+                // the blamed thread is not part of this dump, or it is a sleeper whose registers change between two dumps: its exception context is not comparable
                 n.exception = None;
             }
             let vol: Vec<(u64, usize)> = n.threads.iter().filter(|(tid, _)| !stable.contains(tid)).map(|(_, (s, b, _))| (*s, b.len())).collect();
@@ -446,6 +473,9 @@ pub fn check(c: &Case) -> Verdict {
     }
     if !exiters.is_empty() {
         classes.push("natural:thread-exit-before-attach".into());
+    }
+    if leader_exit {
+        classes.push("natural:zombie-leader(stop-timeout,auxv-unopenable,leader-unattachable)".into());
     }
     if !seized.is_empty() {
         classes.push(if want.contains_key("SuspendNoThreadsLeft") { "natural:no-thread-attachable" } else { "natural:thread-held-by-foreign-tracer" }.into());
@@ -489,16 +519,20 @@ fn enum_cases() -> impl Iterator<Item = Case> {
         (vec![(K_PARKED, NameG::Utf8("t".into())); 7], false, AuxvPlan::HugePhnum),
     ];
     (0u8..32).flat_map(move |m| {
-        shapes.clone().into_iter().map(move |(threads, cue, auxv)| Case { failmask: m, threads, cue_exiters: cue, auxv, seized: 0, limit: 0 })
+        shapes
+            .clone()
+            .into_iter()
+            .map(move |(threads, cue, auxv)| Case { failmask: m, threads, cue_exiters: cue, auxv, seized: 0, limit: 0, leader_exit: false })
+            .chain(std::iter::once(Case { failmask: m, threads: vec![(K_PARKED, NameG::Utf8("survivor".into())), (K_SLEEPER, NameG::Unset)], cue_exiters: false, auxv: AuxvPlan::Kernel, seized: 0, limit: 0, leader_exit: true }))
     })
 }
 
 pub fn run(ctx: &mut LaneCtx) {
-    ctx.assume("expected-error model: Stop -> InitErrors/StopProcessFailed; FillMissingAuxvInfo -> InitErrors/FillMissingAuxvInfoErrors (only when the auxv info is not already complete); ThreadName -> one ReadThreadNameFailed per thread; SuspendThreads -> PtraceAttachError(1234); CpuInfoFileOpen -> WriteCpuInformationFailed; non-UTF-8 comm -> ReadThreadNameFailed; null-SP thread -> DetachSkippedThread(tid); vanished thread -> PtraceAttachError(tid) or WaitPidError(tid); unreadable linker data or a library name that is not UTF-8 -> WriteDSODebugStreamFailed; StopProcessFailed(Timeout) is environmental and tolerated");
+    ctx.assume("expected-error model: Stop -> InitErrors/StopProcessFailed; FillMissingAuxvInfo -> InitErrors/FillMissingAuxvInfoErrors (only when the auxv info is not already complete); ThreadName -> one ReadThreadNameFailed per thread; SuspendThreads -> PtraceAttachError(1234); CpuInfoFileOpen -> WriteCpuInformationFailed; non-UTF-8 comm -> ReadThreadNameFailed; null-SP thread -> DetachSkippedThread(tid); vanished thread -> PtraceAttachError(tid) or WaitPidError(tid); unreadable linker data or a library name that is not UTF-8 -> WriteDSODebugStreamFailed; zombie leader -> StopProcessFailed(Timeout) + FillMissingAuxvInfoFailed + PtraceAttachError(pid) + WriteDSODebugStreamFailed; otherwise StopProcessFailed(Timeout) is environmental and tolerated");
     ctx.assume("threads can only exit between enumeration and attach when the process was not stopped, so exiter schedules are exercised with the StopProcess fail point on; a target whose kernel auxv lacks entries cannot be manufactured (PR_SET_MM_AUXV is not permitted here)");
     ctx.run_enum(
         "failspot-subsets",
-        "exhaustive: all 32 subsets of the five fail points x 6 fixed target shapes (incl. non-UTF-8 names, null-SP thread, exiting threads, bad direct auxv); non-trivial = a subset other than the two the suite tests ({Stop}, all five) or any natural failure",
+        "exhaustive: all 32 subsets of the five fail points x 7 fixed target shapes (incl. non-UTF-8 names, null-SP thread, exiting threads, bad direct auxv, a zombie thread-group leader); non-trivial = a subset other than the two the suite tests ({Stop}, all five) or any natural failure",
         enum_cases(),
         check,
     );
@@ -506,9 +540,9 @@ pub fn run(ctx: &mut LaneCtx) {
         SubSpec {
             name: "generated",
             cases: (800, 20_000),
-            rule: "generated targets (0..8 extra threads of kinds parked/sleeper/null-sp/exiter with unset/UTF-8/non-UTF-8 names) x fail-point subset x auxv plan x exiter cue x a subset of threads (possibly all, possibly the main thread) held by a foreign tracer so that attaching to them fails x size limit none / always exceeded / generous; oracle = expected-error model equality + all other streams equal to the fault-free dump of the same target; non-trivial as above; distinct = hash of case",
-            strategy: (0u8..32, proptest::collection::vec(thread_strategy(), 0..9), any::<bool>(), prop_oneof![3 => Just(AuxvPlan::Kernel), 1 => Just(AuxvPlan::TrueDirect), 1 => Just(AuxvPlan::BadPhdr), 1 => Just(AuxvPlan::HugePhnum), 1 => Just(AuxvPlan::NonUtf8LibraryName)], prop_oneof![5 => Just(0u16), 3 => any::<u16>().prop_map(|m| m & 0x1fe), 1 => any::<u16>(), 2 => Just(0xffffu16)], prop_oneof![2 => Just(0u8), 1 => 1u8..3])
-                .prop_map(|(failmask, threads, cue_exiters, auxv, seized, limit)| fix(Case { failmask, threads, cue_exiters, auxv, seized, limit }))
+            rule: "generated targets (0..8 extra threads of kinds parked/sleeper/null-sp/exiter with unset/UTF-8/non-UTF-8 names) x fail-point subset x auxv plan x exiter cue x a subset of threads (possibly all, possibly the main thread) held by a foreign tracer so that attaching to them fails x size limit none / always exceeded / generous x (a fifth of the cases, with the kernel's auxv) a thread-group leader that has exited on its own, so that stopping times out, the leader cannot be attached and /proc/<pid>/auxv cannot be opened; oracle = expected-error model equality + all other streams equal to the fault-free dump of the same target; non-trivial as above; distinct = hash of case",
+            strategy: (0u8..32, proptest::collection::vec(thread_strategy(), 0..9), any::<bool>(), prop_oneof![3 => Just(AuxvPlan::Kernel), 1 => Just(AuxvPlan::TrueDirect), 1 => Just(AuxvPlan::BadPhdr), 1 => Just(AuxvPlan::HugePhnum), 1 => Just(AuxvPlan::NonUtf8LibraryName)], prop_oneof![5 => Just(0u16), 3 => any::<u16>().prop_map(|m| m & 0x1fe), 1 => any::<u16>(), 2 => Just(0xffffu16)], (prop_oneof![2 => Just(0u8), 1 => 1u8..3], proptest::bool::weighted(0.2)))
+                .prop_map(|(failmask, threads, cue_exiters, auxv, seized, (limit, leader_exit))| fix(Case { failmask, threads, cue_exiters, auxv, seized, limit, leader_exit }))
                 .boxed(),
             max_shrink_iters: 200,
             log_current: true,
